@@ -1746,6 +1746,142 @@ fn judge_headers(view: &View, sc: &HeadersScenario, r: &HdrReport, viol: &mut Ve
 // order, mutated legal transcripts, extremes, random bytes - at any fragmentation.
 // =====================================================================================
 
+// ===================== C13 send side: the API must refuse what the receiving side must reject =====================
+
+#[derive(Debug, Clone)]
+pub struct SendHdrScenario {
+    pub seed: u64,
+    pub e_server: bool,
+    /// "head" (request / response), "trailers", "informational", "push"
+    pub position: &'static str,
+    pub fields: crate::apps::spec::Fields,
+    pub defects: Vec<&'static str>,
+    pub prof: [sim::DirProfile; 2],
+    pub sched: sim::Sched,
+}
+
+pub fn gen_sendhdr(seed: u64) -> SendHdrScenario {
+    let mut rng = Rng::new(seed ^ 0x5e4d);
+    let e_server = rng.chance(1, 2);
+    let position = if e_server { *rng.pick(&["head", "head", "trailers", "informational", "push"]) } else { *rng.pick(&["head", "head", "trailers"]) };
+    let bad: &[(&'static str, &'static str)] = &[("connection", "close"), ("connection", "te"), ("keep-alive", "timeout=5"), ("proxy-connection", "keep-alive"), ("transfer-encoding", "chunked"), ("upgrade", "h2c"), ("te", "gzip"), ("te", "trailers, gzip")];
+    let mut fields: crate::apps::spec::Fields = Vec::new();
+    let mut defects = Vec::new();
+    // benign context first or last, a valid `te: trailers` on either side of the defect
+    if rng.chance(1, 2) {
+        fields.push(("x-ok-0".into(), b"v".to_vec()));
+    }
+    if rng.chance(1, 2) {
+        fields.push(("te".into(), b"trailers".to_vec()));
+    }
+    for _ in 0..rng.range(0, 2) {
+        let (n, v) = *rng.pick(bad);
+        if n == "te" && fields.iter().any(|(x, _)| x == "te") {
+            continue;
+        }
+        fields.push((n.into(), v.as_bytes().to_vec()));
+        defects.push(n);
+    }
+    if rng.chance(1, 3) && !fields.iter().any(|(x, _)| x == "te") {
+        fields.push(("te".into(), b"trailers".to_vec()));
+    }
+    if rng.chance(1, 2) {
+        fields.push(("x-ok-1".into(), b"w".to_vec()));
+    }
+    SendHdrScenario { seed, e_server, position, fields, defects, prof: [gen_profile(&mut rng), gen_profile(&mut rng)], sched: gen_sched(&mut rng) }
+}
+
+async fn sendhdr_peer_server(mut p: RawPeer) {
+    // E = client: answer whatever arrives, then end
+    if !p.handshake(&[(S_INITIAL_WINDOW_SIZE, 1 << 20)]).await {
+        return;
+    }
+    p.settle_world(100_000).await;
+    let ids: Vec<u32> = p.sh.opened_by_e.clone();
+    for t in ids {
+        if !p.sh.streams.get(&t).map(|x| x.rst.is_some()).unwrap_or(false) {
+            p.respond(t, 200, &[], true).await;
+        }
+    }
+    p.settle_world(100_000).await;
+    p.close();
+    p.serve_forever().await;
+}
+
+async fn sendhdr_peer_client(mut p: RawPeer) {
+    // E = server: one plain request with a small body (so that the server may send trailers after a body)
+    if !p.handshake(&[(S_INITIAL_WINDOW_SIZE, 1 << 20)]).await {
+        return;
+    }
+    let t = p.alloc_sid();
+    p.open_request(t, "POST", "/s", &[f("x-vp-id", "2")], false).await;
+    p.send_data_legal(t, 4, 0, 10, true).await;
+    p.settle_world(100_000).await;
+    let mut b = Vec::new();
+    goaway(0, 0, b"", &mut b);
+    p.send(&b).await;
+    p.settle_world(100_000).await;
+    p.close();
+    p.serve_forever().await;
+}
+
+pub fn run_sendhdr(sc: &SendHdrScenario) -> Outcome {
+    sim::install(sc.seed, sc.sched);
+    sim::with(|w| {
+        w.gone_write_err = (0, 1);
+        w.pipes.push(PipeState::new(0, sc.prof[0].clone(), sc.prof[1].clone()));
+    });
+    let ctl: ConnCtlRef = Default::default();
+    let e = if sc.e_server { Side::Server } else { Side::Client };
+    let hook = SnapHook::new(e, 65_535);
+    let mut spec = plain_spec(2, "POST", vec![10], vec![20]);
+    match (sc.e_server, sc.position) {
+        (false, "trailers") => spec.req.eos = EosMode::Trailers(sc.fields.clone()),
+        (false, _) => spec.req.fields = sc.fields.clone(),
+        (true, "trailers") => spec.resp.eos = EosMode::Trailers(sc.fields.clone()),
+        (true, "informational") => spec.informational = vec![(103, sc.fields.clone())],
+        (true, "push") => {
+            let o = GenOpts { focus: Focus::Lifecycle, coop: true, max_streams: 3, max_body: 10, small: true };
+            // borrow a generated push spec as a template
+            let mut tmpl = None;
+            for k in 0..200u64 {
+                if let Some(pz) = crate::apps::spec::generate(k, &o).streams.iter().flat_map(|s| s.pushes.iter()).next() {
+                    tmpl = Some(pz.clone());
+                    break;
+                }
+            }
+            if let Some(mut pz) = tmpl {
+                pz.idx = 9;
+                pz.req_fields = sc.fields.clone();
+                pz.before_response = true;
+                spec.pushes = vec![pz];
+            }
+        }
+        (true, _) => spec.resp.fields = sc.fields.clone(),
+    }
+    if sc.e_server {
+        sim::spawn("server-main", TaskKind::Conn, server_main(Ctx { conn: 0, side: Side::Server }, PipeEnd::new(0, Side::Server), EpCfg::default(), vec![spec], ctl.clone(), hook.clone(), None));
+        sim::spawn("raw-peer", TaskKind::App, sendhdr_peer_client(RawPeer::new(0, Side::Client)));
+    } else {
+        sim::spawn("client-app", TaskKind::App, raw_client_app(Ctx { conn: 0, side: Side::Client }, PipeEnd::new(0, Side::Client), EpCfg::default(), vec![spec], ctl.clone(), hook.clone()));
+        sim::spawn("raw-peer", TaskKind::App, sendhdr_peer_server(RawPeer::new(0, Side::Server)));
+    }
+    let end = sim::run(2_000_000);
+    let scn = sc.clone();
+    finish_raw(end, e, &[&hook], move |view, _viol, stats, notes| {
+        stats.inc(&format!("sendhdr.{}.{}", if scn.e_server { "server" } else { "client" }, scn.position));
+        stats.inc(if scn.defects.is_empty() { "sendhdr.valid_cases" } else { "sendhdr.defect_cases" });
+        // what the API said (evidence; the verdict is the wire oracle's: nothing malformed may leave E)
+        for (_ev, a) in mon::apis(view.evs()) {
+            if a.side == (if scn.e_server { Side::Server } else { Side::Client }) && a.phase == Phase::Ret && matches!(a.op, Op::SendRequest | Op::SendResponse | Op::SendTrailers | Op::SendInformational | Op::PushRequest) {
+                stats.inc(&format!("sendhdr.api.{:?}.{}", a.op, if matches!(a.res, Res::Ok) { "ok" } else { "refused" }));
+            }
+        }
+        stats.inc("nontrivial");
+        notes.push(format!("send-side case {:?} fields {:?}", scn.position, scn.fields.iter().map(|(n, v)| format!("{}: {}", n, String::from_utf8_lossy(v))).collect::<Vec<_>>()));
+    })
+}
+
 #[derive(Debug, Clone)]
 pub struct FuzzScenario {
     pub seed: u64,
